@@ -27,7 +27,7 @@ func (x *Exec) execInstr(fr *Frame, ins ssa.Instruction, bc Term, st State) {
 	case *ssa.DebugRef:
 		return
 	case *ssa.Alloc:
-		fr.vals[i] = x.doAlloc(st, i.Type().(*types.Pointer).Elem(), i.Comment, i.Heap)
+		fr.vals[i] = x.doAlloc(st, i.Type().(*types.Pointer).Elem(), i.Comment, x.forceHeap[i], i)
 	case *ssa.Store:
 		p := fr.value(i.Addr)
 		x.nilCheck(fr, p, i.Pos(), bc, "store")
@@ -57,7 +57,7 @@ func (x *Exec) execInstr(fr *Frame, ins ssa.Instruction, bc Term, st State) {
 				fr.vals[i] = poison("nested struct field address", i.Type())
 				return
 			}
-			fr.vals[i] = Value{Kind: VAddr, Typ: i.Type(), A: &Addr{Kind: ALocal, Comp: p.A.Comp + "." + f.Name(), Typ: f.Type()}}
+			fr.vals[i] = Value{Kind: VAddr, Typ: i.Type(), A: &Addr{Kind: ALocal, Comp: p.A.Comp + "." + f.Name(), Typ: f.Type(), Origin: p.A.Origin}}
 			return
 		}
 		if !ok || p.Kind != VTerm {
@@ -81,7 +81,16 @@ func (x *Exec) execInstr(fr *Frame, ins ssa.Instruction, bc Term, st State) {
 	case *ssa.IndexAddr:
 		fr.vals[i] = x.doIndexAddr(fr, i, bc, st, site)
 	case *ssa.Index:
-		// array value or (generic) string index: not used by the package on supported paths
+		if b, ok := i.X.Type().Underlying().(*types.Basic); ok && b.Info()&types.IsString != 0 {
+			s := x.term(fr.value(i.X), i.X.Type(), site)
+			idx := x.term(fr.value(i.Index), i.Index.Type(), site)
+			x.safety(fr, "index", "string index in range", i.Pos(), bc,
+				T(SBool, fmt.Sprintf("(and (<= 0 %s) (< %s (str.len %s)))", idx.S, idx.S, s.S)))
+			c := x.C.Def("byte", T(SInt, app("str.to_code", app("str.at", s.S, idx.S))))
+			x.C.Assume(bc, T(SBool, fmt.Sprintf("(and (<= 0 %s) (<= %s 255))", c.S, c.S)))
+			fr.vals[i] = VT(c, i.Type())
+			return
+		}
 		fr.vals[i] = x.freshValue(i.Type(), "index")
 		x.havoc(site + ": Index on array value")
 	case *ssa.Lookup:
@@ -187,7 +196,7 @@ func (x *Exec) nilCheck(fr *Frame, p Value, pos token.Pos, bc Term, what string)
 	x.safety(fr, "nil-"+what, "pointer is not nil", pos, bc, T(SBool, app("not", app("=", p.T.S, "0"))))
 }
 
-func (x *Exec) doAlloc(st State, el types.Type, hint string, heap bool) Value {
+func (x *Exec) doAlloc(st State, el types.Type, hint string, heap bool, origin *ssa.Alloc) Value {
 	ptrT := types.NewPointer(el)
 	if _, isArr := el.Underlying().(*types.Array); !heap && !isArr {
 		x.nlocal++
@@ -205,7 +214,7 @@ func (x *Exec) doAlloc(st State, el types.Type, hint string, heap bool) Value {
 			x.Locals[name] = sortOfOrInt(el)
 			st[name] = zeroOf(sortOfOrInt(el))
 		}
-		return Value{Kind: VAddr, Typ: ptrT, A: &Addr{Kind: ALocal, Comp: name, Typ: el}}
+		return Value{Kind: VAddr, Typ: ptrT, A: &Addr{Kind: ALocal, Comp: name, Typ: el, Origin: origin}}
 	}
 	if arr, ok := el.Underlying().(*types.Array); ok {
 		// fresh backing array, zeroed
@@ -269,6 +278,14 @@ func bvToInt(t Term) Term {
 }
 
 func (x *Exec) doBinOp(fr *Frame, i *ssa.BinOp, bc Term, st State, site string) Value {
+	if i.Op == token.EQL || i.Op == token.NEQ {
+		vx, vy := fr.value(i.X), fr.value(i.Y)
+		isNilConst := func(v ssa.Value) bool { c, ok := v.(*ssa.Const); return ok && c.Value == nil }
+		if vx.Kind == VAddr && isNilConst(i.Y) || vy.Kind == VAddr && isNilConst(i.X) {
+			// the address of a variable is never nil
+			return VT(BoolLit(i.Op == token.NEQ), i.Type())
+		}
+	}
 	xt := i.X.Type()
 	a := x.term(fr.value(i.X), xt, site)
 	b := x.term(fr.value(i.Y), i.Y.Type(), site)
